@@ -1,12 +1,12 @@
-// verif-replay property=C13 harness=c13_aarch64_encoding src=linker-utils/src/aarch64.rs
+// verif-replay property=C13 harness=c13_aarch64_encoding_branch src=linker-utils/src/aarch64.rs
 // failed checks: C13.aarch64 field content does not depend on what the field held before
 // solver counterexample values: 282 | 8ul | 0 | 4 | 128 | 1 | 250 | 0 | 0 | 0
-// replay: cd /verif && ./check --replay replays/C13/c13_aarch64_encoding.rs
+// replay: cd /verif && ./check --replay replays/C13/c13_aarch64_encoding_branch.rs
 // test aarch64::verif_kani::kani_concrete_playback_c13_aarch64_encoding_10425501657366283021 ... ok
 // test aarch64::verif_kani::kani_concrete_playback_c13_aarch64_encoding_106141740883269182 ... FAILED
 // test aarch64::verif_kani::kani_concrete_playback_c13_aarch64_encoding_8591234937778273500 ... ok
 // panicked at linker-utils/src/aarch64.rs:1402:17: C13.aarch64 field content does not depend on what the field held before
-/// Test generated for harness `aarch64::verif_kani::c13_aarch64_encoding` 
+/// Test generated for harness `aarch64::verif_kani::c13_aarch64_encoding_branch` 
 ///
 /// Check for `assertion`: ""C13.aarch64 field content does not depend on what the field held before""
 ///
@@ -45,5 +45,5 @@ fn kani_concrete_playback_c13_aarch64_encoding_106141740883269182() {
         // 0
         vec![0],
     ];
-    kani::concrete_playback_run(concrete_vals, c13_aarch64_encoding);
+    kani::concrete_playback_run(concrete_vals, c13_aarch64_encoding_branch);
 }
